@@ -1402,28 +1402,41 @@ def fam_dtype_mix(ctx, k):
     ref = Ref(A, b, x, Dset)
     tag = dict(n=n, A=str(A.dtype), b=str(b.dtype), x="None" if x is None else str(x.dtype), D=Dset)
     y = check_condense(ctx, A, b, x, split, ref, tag, mechs={"cast": True})
-    # enforce / penalize: the returned right-hand side must hold x (resp. P*x) on D and b on I as *values*
+    # enforce: the returned right-hand side must hold x on D and b on I as *values*;
+    # penalize: the returned system must still agree with the true solution up to the penalty parameter
     from skfem.utils import enforce, penalize
-    for op in ("enforce", "penalize"):
-        w = Watch(A=A, b=b, x=x)
-        if op == "enforce":
-            Ae, be = enforce(A, b, x=x, **split.kw)
-            want = ref.xfull[ref.D]
-        else:
-            Ae, be = penalize(A, b, x=x, epsilon=0.5 ** 30, **split.kw)
-            want = ref.xfull[ref.D] * 2.0 ** 30
-        ctx.check("no-argument-modified", not w.changed(), mech="argument-modified:" + op, **tag)
-        be = np.asarray(be)
-        okv = same(be[ref.D], want) and same(be[ref.I], b[ref.I])
+    w = Watch(A=A, b=b, x=x)
+    Ae, be = enforce(A, b, x=x, **split.kw)
+    ctx.check("no-argument-modified", not w.changed(), mech="argument-modified:enforce", **tag)
+    be = np.asarray(be)
+    need = np.result_type(b.dtype, ref.xfull.dtype)
 
-        def m():
-            need = np.result_type(b.dtype, ref.xfull.dtype)
-            lossy = be.dtype != need and not np.can_cast(need, be.dtype, "safe")
-            if lossy and np.allclose(be[ref.D], want.real) and same(be[ref.I], b[ref.I]):
-                return CAST_RHS
-            return op + ":rhs"
-        ctx.check("enforce-rhs-exact" if op == "enforce" else "penalize-rhs", okv, mech=m, got_dtype=str(be.dtype),
-                  op=op, **tag)
+    def m_enforce():
+        lossy = be.dtype != need and not np.can_cast(need, be.dtype, "safe")
+        if lossy and np.allclose(be[ref.D], ref.xfull[ref.D].real) and same(be[ref.I], b[ref.I]):
+            return CAST_RHS
+        return "enforce:rhs"
+    ctx.check("enforce-rhs-exact", same(be[ref.D], ref.xfull[ref.D]) and same(be[ref.I], b[ref.I]), mech=m_enforce,
+              got_dtype=str(be.dtype), **tag)
+    P = 2.0 ** 30
+    Ap, bp = penalize(A, b, x=x, epsilon=1 / P, **split.kw)
+    bp = np.asarray(bp)
+    S = np.asarray(Ap.toarray()).astype(complex)
+    r = bp.astype(complex)
+    S[ref.D] /= P
+    r[ref.D] /= P
+    yp = np.linalg.solve(S, r)
+    err = float(np.abs(yp - ref.y).max())
+    bound = 4 * max(1.0, float(np.abs(np.linalg.solve(ref.AII, ref.AID)).sum(1).max()) if ref.I.size else 1.0) * \
+        float(np.abs(ref.Ad[ref.D]).sum(1).max()) * max(float(np.abs(yp).max()), float(np.abs(ref.xfull).max())) / P
+
+    def m_pen():
+        lossy = bp.dtype != need and not np.can_cast(need, bp.dtype, "safe")
+        if lossy and np.allclose(bp[ref.D], (ref.xfull[ref.D] * P).real, rtol=1e-12):
+            return CAST_RHS
+        return "penalize:solution"
+    ctx.check("penalize-agrees-up-to-epsilon", err <= bound + 1e-9 * float(np.abs(ref.y).max()), mech=m_pen, err=err,
+              bound=bound, got_dtype=str(bp.dtype), **tag)
     ctx.nontrivial("dtype-mix", ka, kb, kx)
     ctx.sample(dict(tag, y_dtype=None if y is None else str(np.asarray(y).dtype)), per_family=2)
 
